@@ -62,6 +62,9 @@ def main():
             meta = os.path.join(sd, d, "meta.json")
             if os.path.exists(meta):
                 m = json.load(open(meta))
+                if m.get("status") == "neutralised":
+                    print("%-45s skipped (neutralised by a later repair, see meta.json)" % d)
+                    continue
                 jobs.append((d, os.path.join(sd, d, "patch.diff"), m.get("caught_by") or [m["property"]], a.examples))
     else:
         idx = json.load(open(os.path.join(HERE, "mutants", "index.json")))
